@@ -103,6 +103,12 @@ CLAIMED = {
         text="About forty helper entry points of std/lists, tuples, strings, functional and schema are called with random lists, tuples with NULLs, ASCII/Unicode strings, 1..3-character separators and every in-range/boundary index pair in generated files built through the type checker and the VM; results must equal the Python reference, and reverse-involution, zip truncation, inclusive slices and split_on/str_join restoration must hold.",
         note="Trusted: my reference definitions (vf/props/c19.py); out-of-range arguments are judged only where the docs define the result.",
         design="DESIGN.md section 4, C19"),
+    "C20": dict(
+        engine="cli",
+        technique="runtime monitor: offline checkers over recorded JSON-RPC histories of random sessions with the real `ucg lsp` (request/response matching, range containment, session-vs-fresh-server differential, parser and `ucg build` differentials)",
+        text="Random sessions of open/change/close notifications and hover, definition, completion, semantic-token and workspace-symbol requests at hostile positions over generated, mutated and arbitrary UTF-8 texts are played against the real server over stdio; the recorded history is checked for a response to every request, liveness and exit status 0, every reported range inside its document, final diagnostics equal to those of a fresh server opened on the final text, a single syntax diagnostic exactly where the compiler's parser fails, and no diagnostics on texts that `ucg build` accepts.",
+        note="Trusted: the client's framing and history; the lax UTF-8/UTF-16 character bound. Unknown methods and malformed params are not sent.",
+        design="DESIGN.md section 4, C20"),
     "C17": dict(
         engine="probe",
         technique="runtime monitor: span oracle from my layout engine on single-fault programs (primary position inside the faulty statement, VIA inside the caller) + metamorphic line-shift check; eval, build and CLI",
